@@ -70,3 +70,62 @@ long ext_apply_p (long (*cb) (struct ext_p), int a, long b) {
 
 _Bool ext_isodd (unsigned x) { return x & 1u; }
 unsigned char ext_lowbyte (long x) { return (unsigned char) x; }
+
+/* round 3: aggregates with floating ARRAY members and nested aggregates (every eightbyte is classified from all the
+   scalars lying in it), passed and returned by value across the compiler boundary */
+struct ext_d2 { double d[2]; };
+struct ext_f3 { float f[3]; };
+struct ext_tf { int tag; float f[3]; };
+struct ext_nf { struct { float x, y; } p; float z; char c; };
+union ext_uf { float f[4]; int i; };
+
+struct ext_d2 ext_mkd2 (int a, int b) {
+  struct ext_d2 v;
+  v.d[0] = (double) a + 0.5;
+  v.d[1] = (double) b - 0.25;
+  return v;
+}
+long ext_sum_d2 (struct ext_d2 v) { return (long) (v.d[0] * 4.0) + (long) (v.d[1] * 8.0) * 3; }
+
+struct ext_f3 ext_mkf3 (short a, short b, short c) {
+  struct ext_f3 v;
+  v.f[0] = (float) a;
+  v.f[1] = (float) b + 0.5f;
+  v.f[2] = (float) c * 2.0f;
+  return v;
+}
+long ext_sum_f3 (struct ext_f3 v, int k) { return (long) (v.f[0] * 2.0f) + (long) (v.f[1] * 2.0f) * 5 + (long) v.f[2] * 7 + k; }
+
+struct ext_tf ext_mktf (int tag, short a) {
+  struct ext_tf v;
+  v.tag = tag ^ 0x33;
+  v.f[0] = (float) a;
+  v.f[1] = (float) a * 0.5f;
+  v.f[2] = 1.25f;
+  return v;
+}
+long ext_sum_tf (long pre, struct ext_tf v) {
+  return (long) ((unsigned long) pre * 3u + (unsigned long) v.tag) + (long) (v.f[0] * 2.0f) + (long) (v.f[1] * 4.0f) * 3 + (long) (v.f[2] * 4.0f);
+}
+
+struct ext_nf ext_mknf (short a, signed char c) {
+  struct ext_nf v;
+  v.p.x = (float) a + 0.25f;
+  v.p.y = (float) c;
+  v.z = (float) a - (float) c;
+  v.c = (char) (c & 0x3f);
+  return v;
+}
+long ext_sum_nf (struct ext_nf v) { return (long) (v.p.x * 4.0f) + (long) v.p.y * 3 + (long) v.z * 5 + v.c; }
+
+union ext_uf ext_mkuf (short a) {
+  union ext_uf v;
+  for (int i = 0; i < 4; i++) v.f[i] = (float) a + (float) i;
+  return v;
+}
+long ext_sum_uf (union ext_uf v) { return (long) v.f[0] + (long) v.f[1] * 2 + (long) v.f[2] * 3 + (long) v.f[3] * 5; }
+
+long ext_apply_f3 (struct ext_f3 (*cb) (struct ext_f3, int), short a) {
+  struct ext_f3 v = ext_mkf3 (a, (short) (a / 2), 3), r = cb (v, 9);
+  return ext_sum_f3 (r, 1) * 3 + ext_sum_f3 (v, 0);
+}
